@@ -69,7 +69,10 @@ def generate(seed, tier="quick"):
     if any(f.get("header", {}).get("eol") == "crlf" for f in prog["files"]) and crng.random() < 0.5:
         # a CRLF project whose format-command writes CRLF as well
         fmt = {"kind": "cmd", "stub": "black-crlf", "mode": {"line_length": crng.choice([40, 88])}}
-    return {"program": prog, "steps": steps, "driver": driver, "fmt": fmt, "clean": sub(seed, "clean").random() < 0.35}
+    clean = sub(seed, "clean").random() < 0.35
+    # a file that the formatter would only change at its very edges (no final newline, blank lines at the start / end): not clean, to be left alone
+    edge = sub(seed, "edge").choice([None, "no-final-newline", "trailing-blank-lines", "leading-blank-lines"]) if clean else None
+    return {"program": prog, "steps": steps, "driver": driver, "fmt": fmt, "clean": clean, "edge": edge}
 
 
 def is_clean(text):
@@ -107,7 +110,15 @@ def execute(case, ctx):
                 try:
                     files[k] = black.format_str(files[k], mode=black.FileMode())
                 except Exception:
-                    pass
+                    continue
+                if case.get("edge") == "no-final-newline":
+                    files[k] = files[k].rstrip("\n")
+                elif case.get("edge") == "trailing-blank-lines":
+                    files[k] = files[k] + "\n\n"
+                elif case.get("edge") == "leading-blank-lines":
+                    files[k] = "\n\n" + files[k]
+        if case.get("edge"):
+            ctx.count("probe_file_unclean_only_at_its_edges")
     if driver == "plugin":
         files["pyproject.toml"] = sim.pyproject_for(fmt)
     cur = sim.to_bytes(files)
